@@ -189,6 +189,7 @@ PROPS["C19"] = dict(
         "quick": [
             dict(harness="VerifHarness_C19_p1", reach=["ok", "error", "excluded"]),
             dict(harness="VerifHarness_C19_p1g2", reach=["ok", "error", "excluded"]),
+            dict(harness="VerifHarness_C19_schema1", reach=["ok", "error", "excluded"]),
             dict(harness="VerifHarness_C19_p2", reach=["ok", "error", "excluded"]),
             dict(pkg="ariga.io/atlas/sql/sqlite", hdir="sqlite", harness="VerifHarness_C02_sqlite_skip", reach=["changes", "no-change"]),
         ],
@@ -198,6 +199,7 @@ PROPS["C19"] = dict(
             dict(pkg="ariga.io/atlas/sql/postgres", hdir="postgres", harness="VerifHarness_C02_postgres_skip", reach=["changes", "no-change"]),
             dict(harness="VerifHarness_C19_p1", reach=["ok", "error", "excluded"]),
             dict(harness="VerifHarness_C19_p1g3", reach=["ok", "error", "excluded"]),
+            dict(harness="VerifHarness_C19_schema2", reach=["ok", "error", "excluded"]),
             dict(harness="VerifHarness_C19_p1sym", reach=["ok", "excluded"], cross=False),
             dict(harness="VerifHarness_C19_p2", reach=["ok", "error", "excluded"], cross=False),
         ],
@@ -206,7 +208,8 @@ PROPS["C19"] = dict(
         "quick": "skip policy: 2^8 subsets of {drop column, drop index, drop fk, modify column, add index, drop pk, modify index, add column} x "
                  "2^8 templates (SQLite; thorough: all three dialects); exclusion: realm of 2 schemas x 2 tables x (2 columns, 1 index, 1 foreign key, 1 named check); one pattern of 1..3 parts whose globs are "
                  "1 symbolic byte each over {a,b,c,*,?,[,],-,^,\\} with any of 13 [type=...] selectors; one pattern whose last glob has 2 symbolic "
-                 "bytes; two patterns (last glob symbolic, earlier parts in {*,a}, 4 selectors)",
+                 "bytes; two patterns (last glob symbolic, earlier parts in {*,a}, 4 selectors); schema-scoped entry point ExcludeSchema on either schema "
+                 "(table names coincide with schema names) with one pattern of 1..2 symbolic parts and 4 selectors",
         "thorough": "same plus a 3-byte last glob, and symbolic one-letter resource names for schemas, tables and one table's columns",
     },
     assumptions=[
@@ -218,7 +221,8 @@ PROPS["C19"] = dict(
             "schema apply --exclude / diff.skip from the project file end to end (cmdapi)",
     claim="For every pattern (glob bytes are solver variables) within the bounds, the real ExcludeRealm either rejects the pattern with an "
           "error or returns a realm in which exactly the resources addressed by some pattern (path parts match, selector admits the kind, "
-          "children go with an excluded parent) are absent and all others are still present, compared with a declarative reference. "
+          "children go with an excluded parent) are absent and all others are still present, compared with a declarative reference; "
+          "ExcludeSchema behaves as ExcludeRealm with the pattern qualified by the literal schema name and never touches another schema. "
           "Skip policy: for every subset of 8 skippable change kinds and every present/absent combination of column/index/pk/fk on both sides "
           "(attributes differing so that both-present is a modify), TableDiff reports no change of a disabled kind and still every other edit.",
     note="Bounded. Trusted: the references verifExcluded / verifExpected, engine, z3. The skip-policy runs are exhaustive structural enumeration.",
